@@ -1,4 +1,5 @@
 import Cppcms.Common
+import Cppcms.C04.Gen
 /-!
 C04 — executable model of `uri_parser` and `uri_validator_functor` (src/xss.cpp), the cppcms-own URI validator
 behind `rules::uri_validator`, `relative_uri_validator`, `add_uri_property`.
@@ -18,9 +19,10 @@ open Cppcms
 
 abbrev P := Bytes → Bool × Bytes
 
-def isDigit (c : UInt8) : Bool := 48 ≤ c && c ≤ 57
-def isAlpha (c : UInt8) : Bool := (97 ≤ c && c ≤ 122) || (65 ≤ c && c ≤ 90)
-def isHex (c : UInt8) : Bool := isDigit c || (97 ≤ c && c ≤ 102) || (65 ≤ c && c ≤ 70)
+/-! character classes, reference strings and the `dec_octet` conditions are regenerated from the source (`Gen.lean`) -/
+def isDigit (c : UInt8) : Bool := Gen.uriIsDigit c.toNat
+def isAlpha (c : UInt8) : Bool := Gen.uriIsAlpha c.toNat
+def isHex (c : UInt8) : Bool := Gen.uriIsHex c.toNat
 
 /-- `follows(char)` -/
 def followsC (c : UInt8) : P
@@ -30,11 +32,10 @@ def followsC (c : UInt8) : P
 /-- `follows(char const*)` -/
 def followsS (p : Bytes) : P := fun s => if p.isPrefixOf s then (true, s.drop p.length) else (false, s)
 
-def ampAmp : Bytes := [38, 97, 109, 112, 59]
-def ampApos : Bytes := [38, 97, 112, 111, 115, 59]
+def ampAmp : Bytes := (Gen.uriRefs.getD 0 []).map UInt8.ofNat
+def ampApos : Bytes := (Gen.uriRefs.getD 1 []).map UInt8.ofNat
 
-def subDelimChar (c : UInt8) : Bool :=
-  c = 33 || c = 36 || c = 40 || c = 41 || c = 42 || c = 43 || c = 44 || c = 59 || c = 61 || c = 39
+def subDelimChar (c : UInt8) : Bool := Gen.uriSubDelims.contains c.toNat
 
 def subDelims : P := fun s =>
   match s with
@@ -44,14 +45,14 @@ def subDelims : P := fun s =>
     else if (followsS ampApos s).1 then followsS ampApos s
     else if subDelimChar c then (true, rest) else (false, s)
 
-def unreservedChar (c : UInt8) : Bool := isAlpha c || isDigit c || c = 45 || c = 46 || c = 95 || c = 126
+def unreservedChar (c : UInt8) : Bool := Gen.uriUnreserved c.toNat
 
 def unreserved : P
   | c :: s => if unreservedChar c then (true, s) else (false, c :: s)
   | [] => (false, [])
 
 def pctEncoded : P
-  | 37 :: a :: b :: s => if isHex a && isHex b then (true, s) else (false, 37 :: a :: b :: s)
+  | c :: a :: b :: s => if c.toNat = Gen.uriPct && isHex a && isHex b then (true, s) else (false, c :: a :: b :: s)
   | s => (false, s)
 
 /-- `a() || b()` for parsers that do not move `begin_` when they fail -/
@@ -100,13 +101,10 @@ def decOctet : P := fun s =>
   match s with
   | c :: _ =>
     if isDigit c then
-      let d := c.toNat - 48
-      let count := 3
-      let value := (d * 10 + d) * 10 + d
-      if value ≤ 9 && count ≠ 1 then (false, s)
-      else if value ≤ 99 && count ≠ 2 then (false, s)
-      else if value > 255 then (false, s)
-      else (true, s)
+      -- `while(begin_!=end_ && is_digit((c=*begin_)) && count<3) { count++; value = value*10 + c-'0'; }`
+      let count := Gen.uriDecOctetMax
+      let value := (List.range count).foldl (fun v _ => Gen.uriDecOctetStep v c.toNat) 0
+      if Gen.uriDecOctetReject value count then (false, s) else (true, s)
     else (false, s)
   | [] => (false, [])
 
@@ -149,7 +147,7 @@ def hierPart : P := fun s =>
   else if (pathRootless s).1 then pathRootless s
   else (true, s)
 
-def schemeChar (c : UInt8) : Bool := isAlpha c || isDigit c || c = 43 || c = 45 || c = 46
+def schemeChar (c : UInt8) : Bool := Gen.uriSchemeChar c.toNat
 
 /-- `scheme()`: the scheme text and what follows -/
 def scheme (s : Bytes) : Option (Bytes × Bytes) :=
